@@ -3,6 +3,9 @@
 A case is a *history* of real CLI runs over one generated variant file (mixed `0/1` / `1/0` unphased genotypes,
 optional pre-existing PS/HP phase, decoy multi-ALT / duplicate records with phase of their own):
 
+  (plus: generator-written phased VCFs with interleaved / nested phase sets as the phase input of run Q and as in-process
+   input of the real `phased_blocks_as_reads` — whatshap's own outputs only ever have contiguous sets)
+
   A = phase(in, tag1)   B = phase(in, tag2)   C = phase(A, tag2 [, --sample subset])   U = unphase(C)
   D = phase(U, tag1)    Q = phase(in, phase input = A only)            (tag2 = the other tag)
 
@@ -17,13 +20,16 @@ import json, os, shutil
 
 from harness.gen import sim
 from harness.gen import c04_records as R
-from harness.gen.c09_hist import gen_case, build_inputs
+from harness.gen.c09_hist import gen_case, build_inputs, gen_interleaved_case, build_interleaved
 
 RULE = ("one history of 6 CLI runs (phase with PS, phase with HP, re-phase of the phased file with the other tag "
         "(optionally a sample subset), unphase, phase again, phase with the phased VCF as only phase input) over a "
         "generated multi-sample variant file with mixed 0/1 and 1/0 genotypes, optional pre-existing PS/HP phase and decoy "
         "records, optionally --distrust-genotypes / --only-snvs. Non-trivial: run A phased at least one set with >= 2 "
-        "variants; distinct = distinct (generator seed, options)")
+        "variants; distinct = distinct (generator seed, options). Additionally generator-written phase inputs (PS or HP encoded, "
+        "1-3 samples, 2-3 phase sets per sample laid out interleaved / nested / contiguous): the real phased_blocks_as_reads "
+        "in-process, and run Q on them; non-trivial there: a multi-variant set has a member of another multi-variant set "
+        "between two of its members")
 MANIFEST = dict(
     text="Lean 4 theorems about the encoders (_set_PS/_set_HP), the tag-independent removal and the two decoders: "
          "ps_roundtrip, hp_roundtrip, decode_written (master lemma: after write exactly the new statement decodes, through "
@@ -134,8 +140,9 @@ def whatshap_read(path, sample, only_snvs):
 # ------------------------------------------------------------------------------------------------
 
 class Hist:
-    def __init__(self, ctx, case, d):
+    def __init__(self, ctx, case, d, opts=None):
         self.ctx, self.case, self.d = ctx, case, d
+        self.opts = opts if opts is not None else case["opts"]
         self.fails = []
 
     def fail(self, what, key, step):
@@ -143,7 +150,7 @@ class Hist:
         self.ctx.fail(f"[{step}] {what}", self.case, key=key)
 
     def phase(self, name, variant_vcf, phase_inputs, tag, fa, samples=None):
-        o = self.case["opts"]
+        o = self.opts
         out = os.path.join(self.d, name + ".vcf")
         a = ["phase", "-o", out, "--tag", tag]
         a += ["--reference", fa] if any(p.endswith(".bam") for p in phase_inputs) else ["--no-reference"]
@@ -170,7 +177,7 @@ class Hist:
 
     def check_output(self, run, samples):
         """round trip / no stale phase / no mixed encoding per target sample; returns {sample: decoded map} or None"""
-        ctx, o, name = self.ctx, self.case["opts"], run["name"]
+        ctx, o, name = self.ctx, self.opts, run["name"]
         try:
             _, _, recs = R.load_vcf(run["out"])
         except (OSError, ValueError) as e:
@@ -298,60 +305,193 @@ def run_case(ctx, case, n):
         Q = h.phase("Q", vcf, [A["out"]], tag1, fa)
         decQ = h.check_output(Q, samples) if Q else None
         if decQ is not None:
-            for s in samples:
-                ba, bq = blocks_of(decA[s]), blocks_of(decQ[s])
-                if len({b for b in ba}) > 7 * max(1, len(sc.contigs)):
-                    ctx.observe("pseudo-read check skipped: too many blocks for the coverage cap")
-                    continue
-                for b, members in ba.items():
-                    if len(members) < 2:
-                        continue
-                    got = {k: decQ[s].get(k) for k in members}
-                    if any(v is None for v in got.values()) or len({v[0] for v in got.values()}) != 1:
-                        h.fail(f"pseudo reads: phase set {b} of sample {s} ({sorted(k[1] + 1 for k in members)}) is not reproduced as one phase set: {got}",
-                               "pseudo-set", "Q")
-                        break
-                    same = all(got[k][1] == members[k] for k in members)
-                    swap = all(got[k][1] == tuple(reversed(members[k])) for k in members)
-                    if not (same or swap):
-                        h.fail(f"pseudo reads: haplotypes of phase set {b} of sample {s} differ beyond a swap: {members} vs {got}", "pseudo-hap", "Q")
-                        break
-            check_pseudo_reads(ctx, case, A, Q, samples, o, vcf)
+            check_reproduction(h, {s: blocks_of(decA[s]) for s in samples}, decQ, samples, len(sc.contigs), "Q")
+            check_pseudo_reads(ctx, case, A["out"], Q["trace"], samples, o["only_snvs"], vcf)
     ctx.sample({"case": case, "fails": h.fails, "blocks_A": {s: len(blocks_of(decA[s])) for s in samples} if decA else None})
     shutil.rmtree(d, ignore_errors=True)
 
 
-def check_pseudo_reads(ctx, case, A, Q, samples, o, vcf):
-    """trace of run Q: the candidate reads built by phased_blocks_as_reads == Lean c09.reads on A's decoded rows"""
+def check_reproduction(h, sets, decQ, samples, n_contigs, step):
+    """every phase set of the phase input with >= 2 shared heterozygous variants is one phase set of the output, with the
+    same haplotypes up to exchanging them.  sets: {sample: {block: {(chrom,pos): alleles}}}"""
+    for s in samples:
+        if len(sets[s]) > 7 * max(1, n_contigs):
+            h.ctx.observe("pseudo-read check skipped: too many blocks for the coverage cap")
+            continue
+        for b, members in sets[s].items():
+            if len(members) < 2:
+                continue
+            got = {k: decQ[s].get(k) for k in members}
+            if any(v is None for v in got.values()) or len({v[0] for v in got.values()}) != 1:
+                h.fail(f"pseudo reads: phase set {b} of sample {s} ({sorted(k[1] + 1 for k in members)}) is not reproduced as one phase set: {got}",
+                       "pseudo-set", step)
+                break
+            same = all(got[k][1] == members[k] for k in members)
+            swap = all(got[k][1] == tuple(reversed(members[k])) for k in members)
+            if not (same or swap):
+                h.fail(f"pseudo reads: haplotypes of phase set {b} of sample {s} differ beyond a swap: {members} vs {got}", "pseudo-hap", step)
+                break
+
+
+def pseudo_rows(rin, rp, chrom, si, only_snvs):
+    """rows of the phased file `rp` for one sample and chromosome as the Lean model / the spec want them; `wanted` = the variant
+    is heterozygous (fully called) in the variant file `rin`"""
+    el_in, el_p = eligible_first(rin, only_snvs), eligible_first(rp, only_snvs)
+    wanted = {(r["pos"], r["ref"], r["alts"][0]) for i, r in enumerate(rin) if i in el_in and r["chrom"] == chrom
+              and len(set(R.gt_code(r["calls"][si].get("GT")))) > 1}
+    rows = []
+    for i, r in enumerate(rp):
+        if i not in el_p or r["chrom"] != chrom:
+            continue
+        hp, gp = indep_decode(r, si)
+        ph = gp if gp is not None else hp
+        rows.append({"pos": r["pos"], "wanted": (r["pos"], r["ref"], r["alts"][0]) in wanted, "gcode": R.gt_code(r["calls"][si].get("GT")),
+                     "phase": None if ph in (None, "bad") else {"block": ph[0], "alleles": list(ph[1])}})
+    return rows
+
+
+def spec_reads(rows):
+    """what `phased_blocks_as_reads` has to yield, stated directly: per phase set the two haplotypes restricted to the shared
+    heterozygous variants, if there are at least two of them.  {(block, hap): [[pos, allele], ...]}"""
+    out = {}
+    for r in rows:
+        ph = r["phase"]
+        if len(r["gcode"]) != 2 or len(set(r["gcode"])) < 2 or not r["wanted"] or ph is None or ph["alleles"][0] is None:
+            continue
+        for i, a in enumerate(ph["alleles"]):
+            out.setdefault((ph["block"], i), []).append([r["pos"], a])
+    return {k: v for k, v in out.items() if len(v) > 1}
+
+
+def reads_by_name(reads):
+    impl = {}
+    for name, variants in reads:
+        parts = name.rsplit("_block_", 1)
+        if len(parts) == 2 and "_phase_" in parts[0]:
+            impl[(int(parts[1]), int(parts[0].rsplit("_phase_", 1)[1]))] = [list(v) for v in variants]
+    return impl
+
+
+def check_pseudo_reads(ctx, case, phased_path, trace, samples, only_snvs, vcf, fail=None):
+    """trace of a run with a phased VCF as phase input: the candidate reads built by phased_blocks_as_reads == the direct
+    statement (`spec_reads`, a property failure if not) == Lean c09.reads on the phased file's decoded rows"""
     _, _, rin = R.load_vcf(vcf)
-    _, _, ra = R.load_vcf(A["out"])
-    el_in, el_a = eligible_first(rin, o["only_snvs"]), eligible_first(ra, o["only_snvs"])
+    _, _, rp = R.load_vcf(phased_path)
     reqs, meta = [], []
-    for t in Q["trace"]:
+    for t in trace:
         for s in t["family"]:
-            si = samples.index(s)
-            # input_variants: heterozygous, fully called variants of the variant file
-            wanted = {(r["pos"], r["ref"], r["alts"][0]) for i, r in enumerate(rin) if i in el_in and r["chrom"] == t["chromosome"]
-                      and len(set(R.gt_code(r["calls"][si].get("GT")))) > 1}
-            rows = []
-            for i, r in enumerate(ra):
-                if i not in el_a or r["chrom"] != t["chromosome"]:
-                    continue
-                hp, gp = indep_decode(r, si)
-                ph = gp if gp is not None else hp
-                rows.append({"pos": r["pos"], "wanted": (r["pos"], r["ref"], r["alts"][0]) in wanted, "gcode": R.gt_code(r["calls"][si].get("GT")),
-                             "phase": None if ph in (None, "bad") else {"block": ph[0], "alleles": list(ph[1])}})
+            rows = pseudo_rows(rin, rp, t["chromosome"], samples.index(s), only_snvs)
             reqs.append({"op": "c09.reads", "rows": rows})
-            impl = {}
-            for rd in t["candidates"][s]["reads"]:
-                parts = rd["name"].rsplit("_block_", 1)
-                if len(parts) == 2 and "_phase_" in parts[0]:
-                    impl[(int(parts[1]), int(parts[0].rsplit("_phase_", 1)[1]))] = [[v[0], v[1]] for v in rd["variants"]]
-            meta.append((t["chromosome"], s, impl))
-    for (chrom, s, impl), ans in zip(meta, ctx.model.ask_many(reqs) if reqs else []):
+            impl = reads_by_name((rd["name"], [[v[0], v[1]] for v in rd["variants"]]) for rd in t["candidates"][s]["reads"])
+            meta.append((t["chromosome"], s, impl, spec_reads(rows)))
+    for (chrom, s, impl, spec), ans in zip(meta, ctx.model.ask_many(reqs) if reqs else []):
         lean = {(b, i): rd for b, i, rd in ans} if isinstance(ans, list) else ans
-        if lean != impl:
+        bad = impl != spec
+        if bad and fail:
+            k = next(k for k in sorted(set(impl) | set(spec), key=str) if impl.get(k) != spec.get(k))
+            fail(f"pseudo reads of sample {s} on {chrom}: read {k} of the phase input should be {spec.get(k)} (its phase set restricted to the "
+                 f"shared heterozygous variants) but phased_blocks_as_reads built {impl.get(k)}", "pseudo-reads")
+        if lean != impl and not bad:
             ctx.disagree("c09.reads (phased_blocks_as_reads)", case, {str(k): v for k, v in impl.items()}, ans)
+        if lean != spec:
+            ctx.disagree("c09.reads vs direct statement", case, {str(k): v for k, v in spec.items()}, ans)
+
+
+def inprocess_pseudo_reads(ctx, case, V, P, samples, fail):
+    """the real VariantTable.phased_blocks_as_reads called in-process on the tables of P, against the direct statement and Lean"""
+    from whatshap.vcf import VcfReader
+    o_snvs = case["only_snvs"]
+    _, _, rin = R.load_vcf(V)
+    _, _, rp = R.load_vcf(P)
+    with VcfReader(V, only_snvs=o_snvs) as rv:
+        tv = {t.chromosome: t for t in rv}
+    try:
+        with VcfReader(P, only_snvs=o_snvs, phases=True) as rpz:
+            tp = {t.chromosome: t for t in rpz}
+    except Exception as e:  # noqa: BLE001
+        fail(f"whatshap's reader raises {type(e).__name__} on a generator-written phased VCF ({case['enc']} encoded)", "reader-error")
+        return
+    reqs, meta = [], []
+    for chrom, table in tp.items():
+        for si, s in enumerate(samples):
+            inv = [v for v, g in zip(tv[chrom].variants, tv[chrom].genotypes_of(s)) if not g.is_none() and not g.is_homozygous()]
+            reads = list(table.phased_blocks_as_reads(s, inv, 7, si))
+            impl = reads_by_name((r.name, [[v.position, v.allele] for v in r]) for r in reads)
+            rows = pseudo_rows(rin, rp, chrom, si, o_snvs)
+            spec = spec_reads(rows)
+            ctx.evaluated()
+            if interleaved(rows):
+                ctx.nontrivial(("tbl", case["gen_seed"], chrom, s))
+            if impl != spec:
+                k = next(k for k in sorted(set(impl) | set(spec), key=str) if impl.get(k) != spec.get(k))
+                fail(f"phased_blocks_as_reads({s}, {chrom}): read {k} should be {spec.get(k)} (its phase set restricted to the shared "
+                     f"heterozygous variants) but is {impl.get(k)}", "pseudo-reads")
+            reqs.append({"op": "c09.reads", "rows": rows}); meta.append((impl, spec))
+    for (impl, spec), ans in zip(meta, ctx.model.ask_many(reqs) if reqs else []):
+        lean = {(b, i): rd for b, i, rd in ans} if isinstance(ans, list) else ans
+        if lean != spec:
+            ctx.disagree("c09.reads vs direct statement", case, {str(k): v for k, v in spec.items()}, ans)
+        elif lean != impl and impl == spec:
+            ctx.disagree("c09.reads (in-process)", case, {str(k): v for k, v in impl.items()}, ans)
+
+
+def interleaved(rows):
+    """some phase set has a member of another multi-variant set between two of its members"""
+    seq = [r["phase"]["block"] for r in rows if r["phase"] is not None and r["wanted"] and len(set(r["gcode"])) == 2]
+    multi = {b for b in seq if seq.count(b) >= 2}
+    seq = [b for b in seq if b in multi]
+    return any(seq[i] != seq[i + 1] and seq[i] in seq[i + 2:] for i in range(len(seq) - 1))
+
+
+def run_interleaved(ctx, case, n):
+    """phase input = generator-written phased VCF with interleaved / nested sets: in-process pseudo reads, then run Q"""
+    d = os.path.join(ctx.workdir(), f"case{n}")
+    shutil.rmtree(d, ignore_errors=True)
+    V, P, samples = build_interleaved(case, d)
+    h = Hist(ctx, case, d, opts={"distrust": False, "include_hom": False, "only_snvs": case["only_snvs"]})
+    ctx.dist("interleaved_pattern", case["pattern"]); ctx.dist("interleaved_enc", case["enc"])
+    seen = []
+
+    def fail(what, key):
+        if key not in seen:
+            h.fail(what, key, "P")
+        seen.append(key)
+    inprocess_pseudo_reads(ctx, case, V, P, samples, fail)
+    if case.get("cli", True):
+        Q = phase_q(h, case, V, P)
+        decQ = h.check_output(Q, samples) if Q else None
+        if decQ is not None:
+            _, _, rin = R.load_vcf(V)
+            _, _, rp = R.load_vcf(P)
+            sets = {}
+            for si, s in enumerate(samples):
+                sets[s] = {}
+                for chrom in sorted({r["chrom"] for r in rp}):
+                    for (b, i), rd in spec_reads(pseudo_rows(rin, rp, chrom, si, case["only_snvs"])).items():
+                        for pos, a in rd:
+                            sets[s].setdefault((chrom, b), {}).setdefault((chrom, pos), [None, None])[i] = a
+                sets[s] = {b: {k: tuple(v) for k, v in m.items()} for b, m in sets[s].items()}
+            check_reproduction(h, sets, decQ, samples, case["n_contigs"], "Q")
+            check_pseudo_reads(ctx, case, P, Q["trace"], samples, case["only_snvs"], V, fail=fail)
+            if any(interleaved(pseudo_rows(rin, rp, c, si, case["only_snvs"])) for si in range(len(samples)) for c in {r["chrom"] for r in rp}):
+                ctx.nontrivial(("Q-interleaved", case["gen_seed"]))
+    ctx.sample({"case": case, "fails": h.fails})
+    shutil.rmtree(d, ignore_errors=True)
+
+
+def phase_q(h, case, V, P):
+    out = os.path.join(h.d, "Q.vcf")
+    a = ["phase", "-o", out, "--no-reference", "--tag", case["tag"]] + (["--only-snvs"] if case["only_snvs"] else [])
+    rc, so, se, trace = R.run_whatshap(h.ctx, a + [V, P], trace=os.path.join(h.d, "Q.trace"))
+    h.ctx.evaluated()
+    if rc != 0:
+        last = (se.strip().splitlines() or ["?"])[-1][:300]
+        if "Traceback" in se or rc < 0:
+            h.fail("whatshap phase crashed with a phased VCF as the only phase input: " + last, "crash", "Q")
+        else:
+            h.ctx.observe("clean command-line error: " + last[:80])
+        return None
+    return {"name": "Q", "out": out, "trace": trace, "tag": case["tag"], "in": V, "targets": None}
 
 
 def run(ctx):
@@ -360,11 +500,16 @@ def run(ctx):
         cases = [json.load(open(ctx.replay))["case"]]
     n = 0
     for c in cases:
-        run_case(ctx, c, n); n += 1
+        (run_interleaved if c.get("kind") == "interleaved" else run_case)(ctx, c, n); n += 1
     if ctx.replay:
         return
     for _ in range((8 if ctx.quick else 60) * ctx.scale):
         run_case(ctx, gen_case(ctx.rng, scale=1 if ctx.quick else 2), n); n += 1
+    # generator-written phase inputs with interleaved / nested phase sets: run Q + in-process pseudo reads
+    for _ in range((6 if ctx.quick else 60) * ctx.scale):
+        run_interleaved(ctx, gen_interleaved_case(ctx.rng), n); n += 1
+    for _ in range((30 if ctx.quick else 600) * ctx.scale):
+        run_interleaved(ctx, gen_interleaved_case(ctx.rng, cli=False), n); n += 1
     try:
         os.rmdir(ctx.workdir())
     except OSError:
